@@ -132,3 +132,17 @@ Definition show_out (o : outcome value) : string :=
    the driver accepts any permutation of the input (and treats a panic as the open finding) *)
 Definition show_sort_input (l : list value) : string := ("ANYPERM:" ++ show_v (VList l))%string.
 
+
+(* marker appended to sort / sort_by results whose comparator is not a total preorder on the
+   input: std documents the order as unspecified there (for <= 20 elements std 1.89 happens to be
+   the insertion sort the model transcribes; the proposed merge sort of fixes/C14-sort-panic.diff
+   returns another permutation), so the driver accepts the model's answer or, while the finding is
+   open, any permutation *)
+Definition keys_comparable (func : value) (l : list value) : bool :=
+  if negb (is_function func) then true
+  else match mapM (fun x => fst (run_call false func func [x] tt)) l with
+       | Ok ks => mutually_comparable ks
+       | _ => false
+       end.
+Definition mark (comparable : bool) (s : string) : string :=
+  if comparable then s else (s ++ "#INCOMPARABLE")%string.
